@@ -2,7 +2,7 @@ import os
 from pathlib import Path
 from typing import Literal
 
-from geff.core_io._utils import check_for_geff, delete_geff
+from geff.core_io._utils import check_for_geff, delete_geff, remove_tilde
 
 try:
     import tifffile
@@ -91,6 +91,8 @@ def from_ctc_to_geff(
     """
     ctc_path = Path(ctc_path)
     geff_path = Path(geff_path).with_suffix(".geff")
+    # expand "~" before the existing-geff check, as everything written below does
+    geff_path = Path(remove_tilde(geff_path))
 
     if not ctc_path.exists():
         raise FileNotFoundError(f"CTC file {ctc_path} does not exist")
